@@ -460,9 +460,13 @@ def report(prop, mine, results, missing, seed, wall, args):
             if rep['unsupported'] or rep['errors']:
                 why = ('unsupported: ' + '; '.join(sorted(set(rep['unsupported']))[:5])) if rep['unsupported'] \
                     else 'verifier error: ' + rep['errors'][0][-600:]
+                # (an obligation discharged on the explored paths only is not established: some path was given up)
                 lost = _lost_obligations(rep['qname'], set(n for n, cl in rep['clauses'].items()
-                                                          if cl['status'] in ('unsat', 'sat', 'regressed')), why)
+                                                          if cl['status'] in ('sat', 'regressed')), why)
                 refuted.extend(lost)
+                if lost:
+                    gone = set(x['obligation'] for x in lost)
+                    rep = dict(rep, clauses={n: cl for n, cl in rep['clauses'].items() if n not in gone})
             if rep['unsupported'] and not lost:
                 undecided.append((rep['qname'], 'unsupported: ' + '; '.join(sorted(set(rep['unsupported']))[:5])))
             if rep['errors'] and not lost:
@@ -471,7 +475,7 @@ def report(prop, mine, results, missing, seed, wall, args):
                 # the obligations of the pinned tree that can no longer be generated are reported (below);
                 # what was generated on the paths that could be explored is kept
                 obligations += len(lost)
-                rep = dict(rep, unsupported=[], errors=[], uncovered=[])
+                rep = dict(rep, unsupported=[], errors=[], uncovered=[], samples=[])
             if rep['paths'] == 0 and not rep['unsupported'] and not rep['errors'] and not lost:
                 crashes.append((rep['qname'], 'vacuous: no feasible path (contradictory precondition?)'))
             if rep.get('uncovered'):
